@@ -198,6 +198,7 @@ def emit(unit):
                 "sha_orig": sha(orig),
                 "sha_emitted": sha(rw.text),
                 "rules": rw.rules,
+                "drift_notes": getattr(rw, "notes", []),
                 "props": list(it.props),
                 "name": it.rename or it.name,
                 "container": container_name(it),
